@@ -11,6 +11,8 @@ struct Ctrl {
     log: HashSet<&'static str>,
     gate_armed: bool,
     parked: bool,
+    /// callers arriving at `recv_begin` (about to block for a reply) wait while this is set
+    recv_gate: bool,
     counts: std::collections::HashMap<&'static str, u64>,
     last: std::collections::HashMap<&'static str, Vec<(&'static str, i64)>>,
     panics: Vec<String>,
@@ -30,6 +32,7 @@ pub fn install(log: &[&'static str]) {
         c.log = log.iter().copied().collect();
         c.gate_armed = false;
         c.parked = false;
+        c.recv_gate = false;
         c.counts.clear();
     });
     amiquip::verif::set_hook(Some(Arc::new(|name, fields| on_event(name, fields))));
@@ -57,6 +60,14 @@ fn on_event(name: &'static str, fields: &[(&'static str, i64)]) {
         gev(Value::Object(m));
     }
     CV.notify_all();
+    if name == "recv_begin" && c.recv_gate {
+        // a slow caller: it has sent its request and is held just before it starts waiting for the
+        // reply, until the controller lets it go
+        while g.as_ref().map(|c| c.recv_gate).unwrap_or(false) {
+            g = CV.wait(g).unwrap_or_else(|e| e.into_inner());
+        }
+        return;
+    }
     if name == "poll_begin" && c.gate_armed {
         c.parked = true;
         CV.notify_all();
@@ -89,6 +100,16 @@ pub fn wait_parked(limit: Duration) -> bool {
         }
         g = CV.wait_timeout(g, deadline - now).unwrap_or_else(|e| e.into_inner()).0;
     }
+}
+
+/// From now on every caller stops just before it would wait for its reply.
+pub fn arm_recv_gate() {
+    with(|c| c.recv_gate = true);
+}
+
+pub fn release_recv_gate() {
+    with(|c| c.recv_gate = false);
+    CV.notify_all();
 }
 
 pub fn release_gate() {
